@@ -10,6 +10,7 @@ import (
 	"sort"
 	"strconv"
 	"strings"
+	"sync"
 	"time"
 )
 
@@ -95,6 +96,8 @@ func cmdCheck(args []string) {
 	done := map[string]bool{}
 	var work []string
 	var deferred []string // functions marked `tier thorough`: not verified by the quick command
+	var deferredMu sync.Mutex
+	deferredSeen := map[string]bool{}
 	for k, c := range e.contracts.M {
 		if c.IsIface || c.Trusted {
 			continue
@@ -125,7 +128,28 @@ func cmdCheck(args []string) {
 		if len(batch) == 0 {
 			break
 		}
-		res := e.verifyAll(batch, *prop, cfg, func(o *Oblig, c *Contract) bool { return relevant(o, c, *prop) })
+		res := e.verifyAll(batch, *prop, cfg, func(o *Oblig, c *Contract) bool {
+			if !relevant(o, c, *prop) {
+				return false
+			}
+			// a clause tagged `thorough` (ensures[C01,thorough]) is a long proof: the quick command
+			// skips its obligations (and says so); call sites assume it either way, as they assume
+			// every clause that is proved by another run
+			if !cfg.thorough && hasPlainTag(o.Tags, "thorough") && !o.Cover {
+				n := o.Name
+				if i := strings.Index(n, "/r"); i > 0 {
+					n = n[:i]
+				}
+				deferredMu.Lock()
+				if !deferredSeen[n] {
+					deferredSeen[n] = true
+					deferred = append(deferred, "clause "+n)
+				}
+				deferredMu.Unlock()
+				return false
+			}
+			return true
+		})
 		all = append(all, res...)
 		for _, fr := range res {
 			for _, u := range fr.Used {
